@@ -36,15 +36,18 @@ def _row_loop(fn):
     return loops[-1] if loops else None
 
 
-def _distance_expr_ok(s, row="row"):
-    """cdist(self.contexts, <row as 1 x d>, metric=self.metric) flattened"""
-    for fl in FLATTEN:
-        if s.endswith(fl):
-            core = s[:-len(fl)]
-            return core in ("cdist(self.contexts, %s[np.newaxis, :], metric=self.metric)" % row,
-                            "cdist(self.contexts, %s.reshape(1, -1), metric=self.metric)" % row,
-                            "cdist(self.contexts, np.atleast_2d(%s), metric=self.metric)" % row,
-                            "cdist(self.contexts, %s[None, :], metric=self.metric)" % row)
+def _distance_expr_ok(s, row="ROW"):
+    """cdist(self.contexts, <row as 1 x d>, metric=self.metric) flattened (semantic form: FLAT(...))"""
+    cores = ("cdist(self.contexts, %s[np.newaxis, :], metric=self.metric)" % row,
+             "cdist(self.contexts, %s.reshape(1, -1), metric=self.metric)" % row,
+             "cdist(self.contexts, np.atleast_2d(%s), metric=self.metric)" % row,
+             "cdist(self.contexts, %s[None, :], metric=self.metric)" % row,
+             "cdist(self.contexts, %s[None], metric=self.metric)" % row,
+             "cdist(self.contexts, [%s], metric=self.metric)" % row)
+    if s.startswith("FLAT(") and s.endswith(")"):
+        return s[5:-1] in cores
+    if s.endswith("[:, 0]"):
+        return s[:-6] in cores
     return False
 
 
@@ -78,23 +81,23 @@ def check(ctx):
     ctx.rule("R3.5", "train a fresh copy from scratch on one selector")
     ctx.rule("R3.6", "empty neighbourhood: NaN for every arm, exact guard, choice operands")
     # ---------------------------------------------------------------- R3.1 / R3.3 Radius
-    # (the analysed copy has single-assignment temporaries and extracted helpers inlined, so the selection is looked
-    # at where it is used: the `indices` argument of _get_nhood_predictions)
-    from .c15 import _inline, _selection_arg
+    # Expressions are read in a form that does not depend on how the row loop is spelled or what the locals are
+    # called (c15.RowForm: reaching definitions substituted, IDX / ROW / seeds[IDX]) and in semantic form
+    # (semantic.py: SELECT(c) for np.where / nonzero / flatnonzero, FLAT(x) for reshape(-1) / ravel / flatten,
+    # orderings written with < and <=, EMPTY(x) for the cardinality tests).
+    from .c15 import RowForm, _selection_arg
     from .pattern import match, any_match
+    from .semantic import emptiness
     fr = prog.method("_Radius", "_predict_contexts")
     ctx.saw_fn(fr)
-    loop = _row_loop(fr)
-
-    def T(lp, e):
-        return " ".join(ast.unparse(_inline(lp, e)).split())
+    rf = RowForm(fr)
+    loop = rf.loop
     sel = _selection_arg(prog, "_Radius", loop) if loop is not None else None
-    sel_t = T(loop, sel) if sel is not None else None
+    sel_t = rf.text(sel) if sel is not None else None
     sb = None
     if sel is not None:
         sel_i = ast.parse(sel_t, mode="eval").body
-        for pat, flat in (("np.where(_EC_)", False), ("np.nonzero(_EC_)", False), ("np.flatnonzero(_EC_)", True),
-                          ("np.where(_EC_)[0]", True), ("np.nonzero(_EC_)[0]", True)):
+        for pat, flat in (("SELECT_T(_EC_)", False), ("SELECT(_EC_)", True)):
             sb = match(pat, sel_i)
             if sb is not None:
                 sb["flat"] = flat
@@ -104,16 +107,15 @@ def check(ctx):
                       "selection handed to _get_nhood_predictions: `%s`" % sel_t,
                       construct="def _Radius._predict_contexts")
     else:
-        idx_name, row_name = _row_names(loop)
         cond = ast.parse(sb["_EC_"], mode="eval").body
-        inc = any_match(("_ED_ <= self.radius", "self.radius >= _ED_", "np.less_equal(_ED_, self.radius)",
-                         "~(_ED_ > self.radius)", "np.logical_not(_ED_ > self.radius)"), cond)
+        inc = any_match(("_ED_ <= self.radius", "np.less_equal(_ED_, self.radius)",
+                         "~(self.radius < _ED_)", "np.logical_not(self.radius < _ED_)"), cond)
         ctx.check(inc is not None, "R3.1", "Radius selects rows whose distance is at most the radius (boundary "
                   "included)", sel, fr, "selector `%s` is not an inclusive comparison with self.radius" %
                   ast.unparse(cond), construct="radius comparison of _Radius")
         if inc is not None:
             dx = " ".join(inc["_ED_"].split())
-            ctx.check(_distance_expr_ok(dx, row_name), "R3.3", "Radius distances: cdist(stored contexts, row as 1 x d, "
+            ctx.check(_distance_expr_ok(dx, "ROW"), "R3.3", "Radius distances: cdist(stored contexts, row as 1 x d, "
                       "metric), flattened", sel, fr, "distance expression `%s`" % dx,
                       construct="distance vector of _Radius")
         # guard of the empty branch: a cardinality test of the very selection
@@ -125,56 +127,64 @@ def check(ctx):
         okg = False
         gt = ""
         if iff is not None:
-            gt = T(loop, iff.test)
-            one = sel_t if sb["flat"] else "%s[0]" % sel_t
-            nonempty = {"%s.size > 0" % one, "%s.size" % one, "len(%s) > 0" % one, "%s.size != 0" % one,
-                        "len(%s)" % one, "%s.size >= 1" % one, "len(%s) != 0" % one}
-            empty = {"%s.size == 0" % one, "len(%s) == 0" % one, "%s.size < 1" % one}
+            ge = rf.expr(iff.test, at=iff)
+            gt = " ".join(ast.unparse(ge).split())
+            em = emptiness(ge)
+            # the array of selected rows: the selection itself, or member [0] of the tuple np.where returns
+            one = "SELECT(%s)" % sb["_EC_"]
             in_body = any(c is x for c in calls for s2 in iff.body for x in ast.walk(s2))
             other = iff.orelse if in_body else iff.body
             no_nh = any(isinstance(x, ast.Call) and isinstance(x.func, ast.Attribute) and
                         x.func.attr == "_get_no_nhood_predictions" for s2 in other for x in ast.walk(s2))
-            okg = no_nh and ((gt in nonempty and in_body) or (gt in empty and not in_body))
+            okg = no_nh and em is not None and " ".join(em[0].split()) == " ".join(one.split()) and \
+                em[1] == (not in_body)
         ctx.check(okg, "R3.6", "Radius takes the empty-neighbourhood path exactly when no row was selected",
                   iff if iff is not None else loop, fr, "guard `%s`" % gt,
                   construct="empty-neighbourhood guard of _Radius")
     # ---------------------------------------------------------------- R3.2 / R3.3 KNearest
     fk = prog.method("_KNearest", "_predict_contexts")
     ctx.saw_fn(fk)
-    loopk = _row_loop(fk)
+    rk = RowForm(fk)
+    loopk = rk.loop
     selk = _selection_arg(prog, "_KNearest", loopk) if loopk is not None else None
     kb = None
     if selk is not None:
-        selk_i = ast.parse(T(loopk, selk), mode="eval").body
+        selk_i = ast.parse(rk.text(selk), mode="eval").body
         kb = match("np.argpartition(_ED_, _EK_)[:_ES_]", selk_i) or match("np.argsort(_ED_)[:_ES_]", selk_i)
     if kb is None:
         ctx.undecided("R3.2", "_KNearest: the neighbour selection is not argpartition/argsort of the distances",
                       fk.node, fk, "selection handed to _get_nhood_predictions: `%s`" %
-                      (T(loopk, selk) if selk is not None else None), construct="def _KNearest._predict_contexts")
+                      (rk.text(selk) if selk is not None else None), construct="def _KNearest._predict_contexts")
     else:
-        idx_name, row_name = _row_names(loopk)
         if "_EK_" in kb:
             ok = kb["_ES_"] == "self.k" and kb["_EK_"] == "self.k - 1"
         else:
             ok = kb["_ES_"] == "self.k"
         ctx.check(ok, "R3.2", "KNearest takes the k smallest distances (pivot k-1, first k)", selk, fk,
-                  "selection `%s`" % T(loopk, selk), construct="k-selection of _KNearest")
+                  "selection `%s`" % rk.text(selk), construct="k-selection of _KNearest")
         dx = " ".join(kb["_ED_"].split())
-        ctx.check(_distance_expr_ok(dx, row_name), "R3.3", "KNearest distances: cdist(stored contexts, row as 1 x d, "
+        ctx.check(_distance_expr_ok(dx, "ROW"), "R3.3", "KNearest distances: cdist(stored contexts, row as 1 x d, "
                   "metric), flattened", selk, fk, "distance expression `%s`" % dx,
                   construct="distance vector of _KNearest")
     # ---------------------------------------------------------------- R3.4 history
     ff = prog.method("_Neighbors", "fit")
-    src = {ast.unparse(s.targets[0]): ast.unparse(s.value) for s in ast.walk(ff.node) if isinstance(s, ast.Assign)
-           and len(s.targets) == 1}
+    from .terms import final_form
+    src = {ast.unparse(s.targets[0]): " ".join(ast.unparse(s.value).split()) for st in final_form(ff.node.body)
+           for s in ast.walk(st) if isinstance(s, ast.Assign) and len(s.targets) == 1}
     # (self.decisions is the argument itself once `self.decisions = decisions` has run, so either spelling of the
     # binarizer's first operand denotes the batch in fit; the pairing in partial_fit is C06 R6.7 / C14 R14.3)
     conv = {"self._binarize_ts_rewards(decisions, rewards)", "self._binarize_ts_rewards(self.decisions, rewards)"}
+    def leaves(e):
+        if isinstance(e, ast.IfExp):
+            return leaves(e.body) + leaves(e.orelse)
+        return [" ".join(ast.unparse(e).split())]
+    allr = leaves(ast.parse(src["self.rewards"], mode="eval").body) if "self.rewards" in src else []
+    # a binarising helper the rules do not know by name is any self method given exactly (decisions, rewards)
+    import re
+    conv_like = [x for x in allr if re.fullmatch(r"self\.\w+\((self\.)?decisions, rewards\)", x) or
+                 re.fullmatch(r"self\.lp\._get_binary_rewards\((self\.)?decisions, rewards\)", x)]
     okh = src.get("self.decisions") == "decisions" and src.get("self.contexts") == "contexts" and \
-        src.get("self.rewards") in ({"rewards"} | conv)
-    allr = [ast.unparse(s.value) for s in ast.walk(ff.node) if isinstance(s, ast.Assign)
-            and ast.unparse(s.targets[0]) == "self.rewards"]
-    okh = okh and set(allr) <= ({"rewards"} | conv) and "rewards" in allr
+        bool(allr) and set(allr) <= ({"rewards"} | conv | set(conv_like)) and "rewards" in allr
     ctx.check(okh, "R3.4", "_Neighbors.fit replaces the stored history by its arguments", ff.node, ff,
               "stores %s" % src, construct="def _Neighbors.fit")
     # other writers of the history
@@ -250,6 +260,8 @@ def check(ctx):
     n2, _ = find("return self.arms[_R_]", fn0.node, b1) if b1 else (None, None)
     n2b, _ = find("return self.arms[lp.rng.choice(len(self.arms), size=1, p=self.no_nhood_prob_of_arm)[0]]", fn0.node)
     n3, _ = find("return self.arm_to_expectation.copy()", fn0.node)
+    if n3 is None:
+        n3, _ = find("return dict(self.arm_to_expectation)", fn0.node)
     okc = (n2 is not None or n2b is not None) and n3 is not None
     ctx.check(okc, "R3.6", "empty neighbourhood: predict draws an index into the arm list with the configured "
               "probabilities from the row generator; expectations are a copy of the NaN dictionary", fn0.node, fn0,
